@@ -598,6 +598,101 @@ fn builder_cases(out: &mut Out, args: &Args, r: &mut Rng, n: usize) {
     }
 }
 
+
+// ------------------------------------------------------------------ directed: balance arithmetic at the u64 boundary
+/// split `total` into `n` parts, each <= u64::MAX (requires total <= n * u64::MAX)
+fn split_u128(r: &mut Rng, total: u128, n: usize) -> Vec<u64> {
+    let max = u64::MAX as u128;
+    let mut parts = vec![];
+    let mut rest = total;
+    for k in 0..n {
+        let left = (n - k - 1) as u128;
+        let lo = rest.saturating_sub(left * max);
+        let hi = rest.min(max);
+        let x = if k == n - 1 { rest } else {
+            match r.below(4) {
+                0 => lo,
+                1 => hi,
+                _ => lo + (r.next() as u128) % (hi - lo + 1),
+            }
+        };
+        parts.push(x as u64);
+        rest -= x;
+    }
+    r.shuffle(&mut parts);
+    parts
+}
+
+/// input sums in {MAX, MAX-1, MAX/2+1, 2^63} x coin-output lists whose TRUE sum (+ fee limit for the base
+/// asset) is {= inputs, inputs+1, 2^64-1, 2^64, > 2^64}, split over 1..4 outputs; base asset through coins /
+/// messages / both and a non-base asset; with and without fee limit, change and variable outputs; plus input
+/// sums that overflow u64 themselves.
+fn boundary_cases(out: &mut Out, args: &Args, r: &mut Rng, reps: usize) {
+    let max = u64::MAX as u128;
+    let sums: [u128; 4] = [max, max - 1, max / 2 + 1, 1u128 << 63];
+    for rep in 0..reps {
+        for variant in 0..4u64 {          // 0 base via coins, 1 base via messages, 2 base via both, 3 non-base coin
+            for (si, s) in sums.iter().enumerate() {
+                for target in 0..6u64 {   // 0 = inputs, 1 inputs+1, 2 2^64-1, 3 2^64, 4 > 2^64, 5 input sum itself overflows
+                    let kind = if variant != 3 && (rep + si + target as usize) % 3 == 0 { *r.pick(&[Kind::Blob, Kind::Upload, Kind::Create]) } else { Kind::Script };
+                    let mut pl = gen_valid(r, kind);
+                    let script = kind == Kind::Script;
+                    let nw = pl.wits.len();
+                    let asset: [u8; 32] = if variant == 3 { r.bytes32() } else { pl.p.base_asset };
+                    let is_base = variant != 3;
+                    // inputs of the asset under test
+                    let in_total: u128 = if target == 5 { max + 1 + r.below(3) as u128 + if r.bool() { *s } else { 0 } } else { *s };
+                    let n_in = if in_total > max { r.range(2, 3).max(((in_total + max - 1) / max) as u64) as usize } else { r.range(1, 3) as usize };
+                    let amounts = split_u128(r, in_total, n_in);
+                    pl.ins.clear();
+                    for (k, a) in amounts.iter().enumerate() {
+                        let which = match variant { 0 | 3 => r.below(2), 1 => 2 + r.below(2), _ => if k % 2 == 0 { r.below(2) } else { 2 + r.below(2) } };
+                        pl.ins.push(gen_input(r, which, asset, *a, nw, [0x11; 32]));
+                    }
+                    if !is_base {
+                        // the fee is paid from a separate base-asset input
+                        let w = r.below(4);
+                        pl.ins.push(gen_input(r, w, pl.p.base_asset, 1000, nw, [0x11; 32]));
+                    }
+                    if script && r.chance(1, 3) {
+                        let w = 4 + r.below(2);
+                        let amt = r.u64_biased();
+                        pl.ins.push(gen_input(r, w, [0; 32], amt, nw, [0x11; 32])); // a data message: never spendable
+                    }
+                    r.shuffle(&mut pl.ins);
+                    // fee limit
+                    let fee: u64 = if is_base { match r.below(4) { 0 | 1 => 0, 2 => 1 + r.below(1000), _ => r.below(1 << 62) } } else { r.below(1001) };
+                    let fee_on_asset: u128 = if is_base { fee as u128 } else { 0 };
+                    // true total of coin outputs (+ fee for the base asset)
+                    let base_in = if target == 5 { *s } else { in_total };
+                    let want_total: u128 = match target {
+                        0 | 5 => base_in,
+                        1 => base_in + 1,
+                        2 => max,
+                        3 => max + 1,
+                        _ => max + 2 + (r.next() as u128) % (2 * max),
+                    };
+                    let out_total = want_total.saturating_sub(fee_on_asset);
+                    let min_n = (((out_total + max - 1) / max) as usize).max(1);
+                    if min_n > 4 { continue; }
+                    let n_out = r.range(min_n as u64, 4) as usize;
+                    pl.outs.retain(|o| matches!(o, Output::ContractCreated { .. }));
+                    for a in split_u128(r, out_total, n_out) {
+                        pl.outs.push(Output::coin(Address::from(r.bytes32()), a, AssetId::from(asset)));
+                    }
+                    if r.bool() { pl.outs.push(Output::change(Address::from(r.bytes32()), 0, AssetId::from(asset))); }
+                    if script && r.bool() { pl.outs.push(Output::variable(Address::zeroed(), 0, AssetId::zeroed())); }
+                    r.shuffle(&mut pl.outs);
+                    pl.pol = Policies::new().with_max_fee(fee);
+                    let tname = ["=inputs", "inputs+1", "2^64-1", "2^64", ">2^64", "input-sum-overflows"][target as usize];
+                    let vname = ["base-coins", "base-messages", "base-coins+messages", "non-base-coins"][variant as usize];
+                    emit(out, args, &pl, &format!("u64-boundary/{vname}/in#{si}/out{tname}"));
+                }
+            }
+        }
+    }
+}
+
 fn run_c19(args: &Args, out: &mut Out) {
     let mut r = Rng::new(args.seed);
     if let Some(pth) = &args.replay {
@@ -617,6 +712,7 @@ fn run_c19(args: &Args, out: &mut Out) {
         }
     }
     builder_cases(out, args, &mut r, args.scale(12, 100));
+    boundary_cases(out, args, &mut r, args.scale(2, 12) * mult);
     // 2. one-rule violations / boundaries
     let reps = args.scale(3, 30) * mult;
     for m in 0..N_MUT {
